@@ -201,6 +201,16 @@ func vfCheckNoSecret(where string, s string) {}
 func vfLogCount() int                    { return 0 }
 func vfSprint(args ...interface{}) string { return fmt.Sprint(args...) }
 
+// vfJSON is the document encoding/json produces for v (engine: structural model of json's traversal,
+// exported fields, pointers followed, String() not consulted, strings unescaped).
+func vfJSON(v interface{}) string {
+	b, err := json.Marshal(v)
+	if err != nil {
+		return "json error: " + err.Error()
+	}
+	return string(b)
+}
+
 // vfHooks is filled by generated hook files (native replay of replaced callees).
 var vfHooks = map[string]func(f interface{}){}
 
